@@ -25,7 +25,9 @@ describe(
     "states); readers take the parent order of every table from the parsed per-table list, never from a graph query or a set; the "
     "readers' numeric tokens accept the alphabet of str(float) including exponents; block delimiters are not bare words that may occur "
     "inside names; writers serialise element-wise (no summarising str(ndarray)); variable numbering in UAI uses one sort key at all "
-    "sites; save/load support the same formats and pair each writer with the reader of the same format.",
+    "sites; names that are or contain format keywords (variable, probability, table1, lymph_node) do not change how BIF/NET files are split "
+    "into declarations; the UAI reader wraps single-token repetitions (one-entry tables, one-variable files) and declares every variable of "
+    "the preamble for both network types; save/load support the same formats and pair each writer with the reader of the same format.",
     ["exactness of decimal printing/parsing of floats", "XML escaping", "properties/metadata round trip"],
 )
 
